@@ -8,9 +8,14 @@ def strip_tag(d):
 
 
 def run_stream(ev_bin, args, limit_samples=3):
-    p = subprocess.run([ev_bin, *args], stdout=subprocess.PIPE, text=True)
+    p = subprocess.run([ev_bin, *args], stdout=subprocess.PIPE, stderr=subprocess.PIPE, text=True)
     if p.returncode != 0:
-        raise RuntimeError("ergoverif %s failed" % (args,))
+        # the real function panicked (or the harness did) inside the differential driver: a disagreement like any other — the model never panics —
+        # reported with the end of the Go trace; the rest of the check goes on
+        tail = (p.stderr or "")[-1200:]
+        return {"cases": 0, "classes": {"crashed": 1}, "samples": [],
+                "diffs": [{"req": {"stream": list(args), "s": [], "lit": [], "p": [], "start": [], "width": 0, "kind": "", "doc": "", "line": ""},
+                           "go": {"crashed": "ergoverif %s exited %s: %s" % (" ".join(args), p.returncode, tail)}, "model": {}}]}
     cases = [json.loads(l) for l in p.stdout.split("\n") if l]
     outs = common.model_batch([c["req"] for c in cases])
     diffs, classes, samples = [], {}, []
